@@ -342,6 +342,8 @@ class ProgState:
 
 MECHANICAL = ("no-termination", "fault-stack-growth")     # classes a generated program may be attributed by
 INLINER = frozenset(["inline", "inline-all"])
+# passes that are known to make the COMPILER fault on some generated programs: name -> the switches that run it
+FAULTY_PASSES = (("inline", INLINER), ("cast", frozenset(["cast"])))
 
 class Causes:
     """(route, level, switches, program key, class): the open known findings of the property + this run's"""
@@ -353,8 +355,9 @@ class Causes:
                 self.items.append(c)
     @staticmethod
     def parse(tab, sig):
-        if re.match(r"^opt\|(interp|c)\|inline\|generated\|fault-compiler-inline$", sig):
-            return (sig.split("|")[1], 0, INLINER, "generated", "fault-compiler-inline")
+        mm = re.match(r"^opt\|(interp|c)\|(inline|cast)\|generated\|fault-compiler-(inline|cast)$", sig)
+        if mm and mm.group(2) == mm.group(3):
+            return (mm.group(1), 0, dict(FAULTY_PASSES)[mm.group(2)], "generated", "fault-compiler-" + mm.group(2))
         m = re.match(r"^opt\|(interp|c)\|Q(\d+)\+([^|]*)\|([^|]+)\|([^|]+)$", sig)
         if not m:
             return None
@@ -385,7 +388,9 @@ def quick_skip(p, c):
     """quick tier only: the plain level -Q<n> was seen not to terminate for this program; every listed
     no-termination cause involves the inliner, so configurations at that level or above that still inline are
     not started (each would cost the full CPU limit); the thorough tier runs them (after the exact shrink)"""
-    return p.hung_at is not None and c.level >= p.hung_at and ("inline" in c.on)
+    return (not _THOROUGH) and p.hung_at is not None and c.level >= p.hung_at and ("inline" in c.on)
+
+_THOROUGH = False
 
 def run_grid(lb, progs, route, configs_of, wall, stats, deadline=None):
     """all (program, configuration) pairs of one stage, in pools of a few hundred runs; fills p.bad[route].
@@ -500,18 +505,22 @@ def shrink_program(ctx, build, lb, tab, causes, p, route, wall, stats, max_findi
                 if not inconclusive(o) and o != sref and outcome_class(o) == klass:
                     attributed = (lv, s, o); break
         text, shape = p.text, None
-        inliner_fault = False
-        if (not attributed and p.key == "generated" and klass == "fault-compiler" and (c.on & INLINER)
-                and any(k[3] == "generated" and k[4] == "fault-compiler-inline" for k in causes.items)):
-            # mechanical test of the listed cause "the inliner makes the compiler fault on a generated program":
-            # the same configuration without inline/inline-all compiles and behaves like -Q0
-            o, _ = run_cfg(lb, p.text, sroute, explicit(tab, c.level, c.on - INLINER), wall)
-            stats["runs"] += 1
-            if o == sref:
-                inliner_fault = True
-                lv, s, fout = c.level, c.on, sout
-                complete, note, spelling = False, "attributed mechanically: without inline/inline-all the same configuration behaves like -Q0", c.spelling
-                stats["attributed_to_known_cause"] += 1
+        inliner_fault = False        # (name kept: "the compiler fault goes away without this pass")
+        pass_name = None
+        if not attributed and p.key == "generated" and klass == "fault-compiler":
+            for pname, sw in FAULTY_PASSES:
+                if not (c.on & sw) or not any(k[3] == "generated" and k[4] == "fault-compiler-" + pname for k in causes.items):
+                    continue
+                # mechanical test of the listed cause "pass <pname> makes the compiler fault on a generated program":
+                # the same configuration without the switches of that pass compiles and behaves like -Q0
+                o, _ = run_cfg(lb, p.text, sroute, explicit(tab, c.level, c.on - sw), wall)
+                stats["runs"] += 1
+                if o == sref:
+                    inliner_fault, pass_name = True, pname
+                    lv, s, fout = c.level, c.on, sout
+                    complete, note, spelling = False, "attributed mechanically: without %s the same configuration behaves like -Q0" % "/".join(sorted(sw)), c.spelling
+                    stats["attributed_to_known_cause"] += 1
+                    break
         if inliner_fault:
             pass
         elif attributed:
@@ -538,7 +547,7 @@ def shrink_program(ctx, build, lb, tab, causes, p, route, wall, stats, max_findi
         p.found.append({"route": route, "level": lv, "on": frozenset(s), "hang": hangs(fout) or hangs(sout),
                         "outcomes": {out, sout, fout}})
         if inliner_fault:
-            sig = "opt|%s|inline|generated|fault-compiler-inline" % route
+            sig = "opt|%s|%s|generated|fault-compiler-%s" % (route, pass_name, pass_name)
         elif p.key == "generated" and not (attributed and klass in MECHANICAL):
             # no stable name: shrink the program as well, the signature carries the shrunk source
             if p.ast is not None and m is not None:
@@ -640,7 +649,12 @@ def run_part(ctx, build):
     def phase(name, t):
         stats["phases"][name] = round(time.time() - t0, 1)
     # quick tier: a time budget (a phase stops starting work when its share is used up; what was left out is counted)
-    dl = (lambda s: None) if thorough else (lambda s: t0 + s)
+    # (the thorough tier's plan - every corpus program and 400 generated ones under ~70 configurations, each
+    # difference shrunk - ran for more than two and a half hours on 16 cores without finishing; it now has the
+    # quick tier's stage deadlines times ten, about 55 minutes in all, and counts what it left out)
+    global _THOROUGH
+    _THOROUGH = thorough
+    dl = (lambda s: t0 + 10 * s) if thorough else (lambda s: t0 + s)
 
     # ---- references (interpreter)
     res = aldor.run_many([(run_cfg, (lb, p.text, "interp", ["-Q0"], wall), {}) for p in progs])
@@ -705,7 +719,7 @@ def run_part(ctx, build):
     else:
         c1 = stage1
     stats["c_programs"] = len(cprogs)
-    if thorough or time.time() < t0 + 275:
+    if time.time() < t0 + (2750 if thorough else 275):
         res = aldor.run_many([(run_cfg, (lb, p.text, "c", ["-Q0"], wall), {}) for p in cprogs])
         stats["runs"] += len(cprogs)
         for p, r in zip(cprogs, res):
@@ -718,8 +732,8 @@ def run_part(ctx, build):
         shrink_all(*args, cprogs, "c", wall, stats, max_findings, shrink_budget, prog_budget, dl(315))
         if thorough:
             # (the random subsets stay on the interpreter route: the optimiser is the same, only code generation differs)
-            run_grid(lb, cprogs, "c", complements, wall, stats)
-            shrink_all(*args, cprogs, "c", wall, stats, max_findings, shrink_budget, prog_budget)
+            run_grid(lb, cprogs, "c", complements, wall, stats, dl(330))
+            shrink_all(*args, cprogs, "c", wall, stats, max_findings, shrink_budget, prog_budget, dl(345))
     else:
         stats["left_out_by_time_budget"] += len(cprogs)
     phase("c-route", t0)
